@@ -3,6 +3,7 @@
 run the property's quick check, expect exit 1 with a VIOLATION line; record whether the native replay confirmed it
 (line without the no-failing-input-found suffix).  Restores the tree and rebuilds /repo/_build at the end."""
 import json, re, subprocess, sys, os
+os.environ['VERIF_EVIDENCE_DIR'] = os.path.join(os.path.dirname(os.path.abspath(__file__)), 'build', 'evidence_scratch')   # never overwrite committed evidence with runs on a patched tree
 V = os.path.dirname(os.path.abspath(__file__))
 def sh(c, **k):
     return subprocess.run(c, shell=True, text=True, stdout=subprocess.PIPE, stderr=subprocess.STDOUT, **k)
